@@ -3,8 +3,11 @@
   Go's `byte(x >> 8k)` and `uintN(b0)<<… | … | uintN(bk)` are over the naturals. Core Lean only.
 -/
 import ScionTime.Model.WireFields
+import ScionTime.Proofs.GoPrelude
+import ScionTime.Model.GoPrelude2
+import ScionTime.Proofs.WireFields
 namespace ScionTime.LeafBytes
-open ScionTime.Wire
+open ScionTime ScionTime.Wire ScionTime.GoLemmas
 
 theorem forall_int8 (P : Int8 → Prop) (h : ∀ n : Fin 256, P (UInt8.ofNat n.val).toInt8) : ∀ x, P x := by
   intro x
@@ -151,5 +154,96 @@ theorem u64_b3 (x : UInt64) : ((x >>> (24 : UInt64)).toUInt8).toNat = x.toNat / 
 theorem u64_b2 (x : UInt64) : ((x >>> (16 : UInt64)).toUInt8).toNat = x.toNat / 256 ^ 2 % 256 := by simp [Nat.shiftRight_eq_div_pow]
 theorem u64_b1 (x : UInt64) : ((x >>> (8 : UInt64)).toUInt8).toNat = x.toNat / 256 ^ 1 % 256 := by simp [Nat.shiftRight_eq_div_pow]
 theorem u64_b0 (x : UInt64) : ((x).toUInt8).toNat = x.toNat / 256 ^ 0 % 256 := by simp
+
+/-! ### int16 -/
+
+theorem i16_b0 (x : Int16) : ((x).toInt64.toUInt64.toUInt8).toNat = toU 16 x.toInt / 256 ^ 0 % 256 := by
+  have h := toNat_toUInt64 x.toInt64
+  have hx : x.toInt64.toInt = x.toInt := by simp
+  have hl := Int16.le_toInt x
+  have hu := Int16.toInt_lt x
+  have : (x.toInt64.toUInt64.toUInt8).toNat = x.toInt64.toUInt64.toNat % 256 := by simp
+  rw [this]
+  unfold toU
+  simp only [Nat.reducePow] at *
+  omega
+theorem i16_b1 (x : Int16) : (((x >>> (8 : Int16))).toInt64.toUInt64.toUInt8).toNat = toU 16 x.toInt / 256 ^ 1 % 256 := by
+  have hs : (x >>> (8 : Int16)).toInt = x.toInt / 256 := by
+    rw [← Int16.toInt_toBitVec, Int16.toBitVec_shiftRight, BitVec.toInt_sshiftRight']
+    have : ((8 : Int16).toBitVec.smod 16).toNat = 8 := by decide
+    rw [this, Int16.toInt_toBitVec, Int.shiftRight_eq_div_pow]
+    rfl
+  have h := toNat_toUInt64 (x >>> (8 : Int16)).toInt64
+  have hx : (x >>> (8 : Int16)).toInt64.toInt = (x >>> (8 : Int16)).toInt := by simp
+  have hl := Int16.le_toInt x
+  have hu := Int16.toInt_lt x
+  have : ((x >>> (8 : Int16)).toInt64.toUInt64.toUInt8).toNat = (x >>> (8 : Int16)).toInt64.toUInt64.toNat % 256 := by simp
+  rw [this]
+  unfold toU
+  simp only [Nat.reducePow] at *
+  omega
+
+theorem widen16 (u : UInt16) : (u.toUInt64.toInt64).toInt = u.toNat := by
+  have h2 : (u.toUInt64.toInt64).toInt = (u.toUInt64.toInt64).toBitVec.toInt := rfl
+  have h3 : (u.toUInt64.toInt64).toBitVec.toNat = u.toNat := by simp
+  rw [h2, BitVec.toInt_eq_toNat_cond, h3]
+  have := u.toNat_lt
+  split <;> omega
+theorem u16_i16 (u : UInt16) : (u.toUInt64.toInt64.toInt16).toInt = ofU 16 u.toNat := by
+  have := u.toNat_lt
+  rw [Int64.toInt_toInt16, widen16]
+  unfold ofU
+  simp only [Nat.reducePow, Nat.reduceSub] at *
+  split
+  · apply Int.bmod_eq_of_le <;> omega
+  · rename_i h
+    have : ((u.toNat : Int)).bmod 65536 = ((u.toNat : Int) - 65536).bmod 65536 := by
+      have := Int.sub_bmod_right (u.toNat : Int) 65536
+      simpa using this.symm
+    rw [this, Int.bmod_eq_of_le (by omega) (by omega)]
+    omega
+
+/-! ### decoders without destructuring the input: fields read at absolute positions -/
+
+/-- the fields of a layout read at absolute positions -/
+def fieldsAt : List Nat → List Nat → Nat → List Nat
+  | [], _, _ => []
+  | w :: ws, l, k => beVal ((List.range w).map (fun i => l.getD (k + i) 0)) :: fieldsAt ws l (k + w)
+
+theorem take_drop_range (l : List Nat) (k w : Nat) (h : k + w ≤ l.length) :
+    (l.drop k).take w = (List.range w).map (fun i => l.getD (k + i) 0) := by
+  apply List.ext_getElem
+  · simp; omega
+  · intro i h1 h2
+    simp only [List.getElem_take, List.getElem_drop, List.getElem_map, List.getElem_range]
+    simp only [List.length_take, List.length_drop] at h1
+    simp only [List.getD_eq_getElem?_getD, List.getElem?_eq_getElem (show k + i < l.length by omega), Option.getD_some]
+
+theorem fieldsOf_at : ∀ (ws : List Nat) (l : List Nat) (k : Nat), k + layoutLen ws ≤ l.length →
+    fieldsOf ws (l.drop k) = fieldsAt ws l k
+  | [], _, _, _ => rfl
+  | w :: ws, l, k, h => by
+    simp only [layoutLen] at h
+    simp only [fieldsOf, fieldsAt, List.drop_drop]
+    rw [take_drop_range l k w (by omega), fieldsOf_at ws l (k + w) (by omega)]
+
+theorem getK_getD (b : List UInt8) (k : Nat) (h : k < b.length) : Go.getK? b k = some (b.getD k 0) := by
+  unfold Go.getK?
+  simp only [List.getD_eq_getElem?_getD, List.getElem?_eq_getElem h, Option.getD_some]
+
+theorem getD_bytes (b : List UInt8) (k : Nat) : (b.map UInt8.toNat).getD k 0 = (b.getD k 0).toNat := by
+  simp only [List.getD_eq_getElem?_getD, List.getElem?_map]
+  cases b[k]? <;> rfl
+
+theorem fieldsOf_at0 (ws : List Nat) (l : List Nat) (h : layoutLen ws ≤ l.length) : fieldsOf ws l = fieldsAt ws l 0 := by
+  have := fieldsOf_at ws l 0 (by omega)
+  simpa using this
+
+theorem range1 : List.range 1 = [0] := rfl
+theorem range2 : List.range 2 = [0, 1] := rfl
+theorem range3 : List.range 3 = [0, 1, 2] := rfl
+theorem range4 : List.range 4 = [0, 1, 2, 3] := rfl
+theorem range6 : List.range 6 = [0, 1, 2, 3, 4, 5] := rfl
+theorem range8 : List.range 8 = [0, 1, 2, 3, 4, 5, 6, 7] := rfl
 
 end ScionTime.LeafBytes
